@@ -155,6 +155,55 @@ theorem observe_sameOff (g : Bool) (a : Act) (hn : NoCall a) : ∀ s, ∀ s' ∈
     simp only [observe] at h
     exact (sameOff_tagged str fmt s).trans (ih _ s' h)
 
+/-! ### the general form: every user call, paired with the struct its innermost enclosing call started with -/
+
+/-- `(root, seen)`: `seen` is the struct at the entry of a user call, `root` the struct the body of the innermost
+MarshalEncode/UnmarshalDecode call with options of its own around it started with (or the struct the tree started with). -/
+def observeS (g : Bool) : Act → Struct → Struct → List (Struct × Struct)
+  | .skip, _, _ => []
+  | .fail _, _, _ => []
+  | .clear _, _, _ => []
+  | .seq a b, r, s => observeS g a r s ++ (if (exec g a s).2.isFatal then [] else observeS g b r (exec g a s).1)
+  | .user body, r, s => (r, withinSet s) :: observeS g body r (withinSet s)
+  | .member _ str fmt body, r, s => observeS g body r (tagged str fmt s)
+  | .call mar opts nn body, r, s =>
+    if (callOpts g opts).isEmpty then observeS g body r s      -- no options: the same scope goes on
+    else match effective g mar opts nn s with
+      | some s0 => observeS g body s0 s0                        -- a new scope: the effective options of this call
+      | none => []
+
+theorem observeS_sameOff (g : Bool) (a : Act) : ∀ r s, SameOff r s → ∀ p ∈ observeS g a r s, SameOff p.1 p.2 := by
+  induction a with
+  | skip => intro r s _ p h; simp [observeS] at h
+  | fail f => intro r s _ p h; simp [observeS] at h
+  | clear k => intro r s _ p h; simp [observeS] at h
+  | seq a b iha ihb =>
+    intro r s hrs p h
+    simp only [observeS, List.mem_append] at h
+    rcases h with h | h
+    · exact iha r s hrs p h
+    · split at h
+      · simp at h
+      · exact ihb r _ (hrs.trans (SameOff.of_frame (exec_frame g a s))) p h
+  | user body ih =>
+    intro r s hrs p h
+    simp only [observeS, List.mem_cons] at h
+    rcases h with h | h
+    · subst h; exact hrs.trans (sameOff_withinSet s)
+    · exact ih r _ (hrs.trans (sameOff_withinSet s)) p h
+  | member mar str fmt body ih =>
+    intro r s hrs p h
+    simp only [observeS] at h
+    exact ih r _ (hrs.trans (sameOff_tagged str fmt s)) p h
+  | call mar opts nn body ih =>
+    intro r s hrs p h
+    simp only [observeS] at h
+    split at h
+    · exact ih r s hrs p h
+    · split at h
+      · exact ih _ _ (SameOff.refl _) p h
+      · simp at h
+
 /-! ### what `GetOption` reports under `SameOff` -/
 
 theorem and_congr_bits (a b f : BitVec 64) (h : ∀ i, f.getLsbD i = true → a.getLsbD i = b.getLsbD i) : a &&& f = b &&& f := by
